@@ -174,10 +174,10 @@ fn run_e1_property(id: &str, thorough: bool, ev: &mut Evidence, t0: Instant) {
     let deadline = Some(t0 + cap);
     let seeds = families::fs_with(&verif_dir().join("seeds"), thorough);
     // order: small / dense / deep families first (never capped), bulk families last (capped in the quick tier)
-    let mut fams: Vec<families::Family> = vec![families::f1(), families::fsetup(if thorough { 12 } else { 4 }, if thorough { 8 } else { 3 }), seeds, if thorough { families::fplus(families::interior_squares(), 3, "every interior square") } else { families::fplus(vec![42, 21, 49, 35, 34], 3, "traps c3 and f6, b2, d4, c4") }];
+    let mut fams: Vec<families::Family> = vec![families::f1(), families::fsetup(if thorough { 12 } else { 4 }, if thorough { 8 } else { 3 }), seeds, if thorough { families::fplus(families::interior_squares(), 3, "every interior square") } else { families::fplus(vec![42, 21, 35], 3, "traps c3 and f6, d4") }];
     let uncapped = fams.len();
     fams.push(families::f2());
-    if thorough || !matches!(id, "C05" | "C06") {
+    if thorough || !matches!(id, "C05" | "C06" | "C08" | "C10") {
         fams.push(families::fd(2, 2, families::all_anchors(2, 2), 3, "all 49 anchors"));
     }
     if thorough {
@@ -199,7 +199,8 @@ fn run_e1_property(id: &str, thorough: bool, ev: &mut Evidence, t0: Instant) {
             break;
         }
         let (fam, mask) = families::fplus_padded(image, 3);
-        let o = e1::E1Opts { prop: id, checks, move_number: 2, deadline: None, chunk: 1, roots_only: false, max_turns: 1, follow: Some(mask) };
+        // C04 is decided at turn starts: the padded roots themselves (21 pieces), not the turn-start states behind them
+        let o = e1::E1Opts { prop: id, checks, move_number: 2, deadline: None, chunk: 1, roots_only: id == "C04" && !thorough, max_turns: 1, follow: Some(mask) };
         let r = e1::run_family(&fam, &o);
         eprintln!("  {} : roots={} states={} transitions={} {:.1}s {}", r.family, r.stats.roots, r.stats.states, r.stats.transitions, r.wall_s, r.note);
         ev.families.push(r);
@@ -242,7 +243,10 @@ fn run_e1_property(id: &str, thorough: bool, ev: &mut Evidence, t0: Instant) {
         } else {
             0
         };
-        let o = e1::E1Opts { prop: id, checks: checks | extra, move_number: 2, deadline, chunk: 1, roots_only: false, max_turns: 1, follow: None };
+        // C04 (decided at turn starts): in the quick tier the window families contribute their roots only (the turn-start
+        // states reached from them are positions of the same families)
+        let roots_only = id == "C04" && !thorough && (fam.name.starts_with("FD ") || fam.name.starts_with("F3W "));
+        let o = e1::E1Opts { prop: id, checks: checks | extra, move_number: 2, deadline, chunk: 1, roots_only, max_turns: 1, follow: None };
         let r = e1::run_family(fam, &o);
         eprintln!("  {} : roots={} states={} transitions={} {:.1}s {}", r.family, r.stats.roots, r.stats.states, r.stats.transitions, r.wall_s, r.note);
         if fam.name.starts_with("F1 ") {
